@@ -977,6 +977,9 @@ def oracle_c13(tables, seed, tier, deep):
     for L in (1, 2, 3) if big else (1, 2):
         names += ["".join(t) for t in itertools.product(alpha, repeat=L)]
     extra = ["Ünï", "中文", "\U0001F600", "a" * 300, "user.address.zip", "a..b", ".", "$a.$b", "$$x", "system.users", "$cmd", "db.$cmd"]
+    # long components that agree on a long prefix (a buffer, a length limit or a truncation would make them collide)
+    for L in (63, 64, 119, 120, 127, 128, 129, 255, 256, 1023, 1024, 5000):
+        extra += ["p" * L + "x", "p" * L + "y", "db." + "q" * L + "1", "db." + "q" * L + "2", "é" * L + "a", "é" * L + "b"]
     for _ in range(3000 if big else 400):
         extra.append("".join(rng.choice("abcXYZ019_.$-é") for _ in range(1 + rng.below(14))))
     repls = ["REDACTED", "", "r.x_y", "é \"q\"", "50%", "%s", "p%d%%", "%!x(MISSING)"]
@@ -1017,6 +1020,18 @@ def oracle_c13(tables, seed, tier, deep):
                     pos += 1
             if not ok or pos != len(h):
                 viol.append({"site": "form", "detail": "pseudonym %r of %r is not %d blocks '<replacement>_<16 hex>' joined by '.'" % (h, n, len(comps)), "input": n, "cfg": Cfg(repl=rp).s()})
+    # value: the pseudonym is the independent computation (16 hex digits of the SHA-256 of the WHOLE component), and
+    # distinct names among the generated ones have distinct pseudonyms
+    seen_e = {}
+    for i, n in enumerate(extra):
+        h = H("e0.%d" % i)
+        want = py_hash_name("REDACTED", n)
+        if h != want and not any(c.startswith("$") for c in n.lstrip("$").split(".")):
+            viol.append({"site": "value", "detail": "pseudonym of %r (%d bytes) is %r, the statement's computation gives %r" % (n[:60] + ("…" if len(n) > 60 else ""), len(n.encode("utf-8", "surrogatepass")), h, want), "input": n})
+        k = n.lstrip("$")
+        if h in seen_e and seen_e[h] != k:
+            viol.append({"site": "collision", "detail": "names %r… and %r… (%d / %d characters) share the pseudonym %r" % (seen_e[h][-12:], k[-12:], len(seen_e[h]), len(k), h), "input": n})
+        seen_e[h] = k
     idx = {n: i for i, n in enumerate(extra)}
     more = []
     for i, n in enumerate(extra[:200]):
@@ -2270,7 +2285,9 @@ def oracle_c14(tables, seed, tier, deep):
                        Obj([("$elemMatch", Obj([("sub", Obj([("$in", ["zq1xs"])]))]))]), "zq1xs", Obj([("inner", Obj([("deep", ["zq1xs", ["zq2xs"]])]))])]
     roles = {"zq1xs": "S", "zq2xs": "S"}
     for sh in shapes():
-        for name, rx in (("tags", "^tags$"), ("tags", "^other$"), ("a.tags", "tags")):
+        for name, rx in (("tags", "^tags$"), ("tags", "^other$"), ("a.tags", "tags"),
+                         # a `$` INSIDE a key (positional operators of an update path; legal in field names): still a name
+                         ("contacts.$.tags", "tags"), ("contacts.$[e].tags", "tags$"), ("contacts.$[].tagsHistory", "tags"), ("a$tags", "tags$")):
             for cmd in (Obj([("find", "c"), ("filter", Obj([(name, sh), ("keep", "zq3xs")]))]),
                         Obj([("aggregate", "c"), ("pipeline", [Obj([("$match", Obj([(name, sh), ("keep", "zq3xs")]))])])]),
                         Obj([("aggregate", "c"), ("pipeline", [Obj([("$addFields", Obj([(name, sh)]))]), Obj([("$project", Obj([("keep", "zq3xs"), (name, sh)]))])])]),
@@ -2799,6 +2816,29 @@ def oracle_c16(tables, seed, tier, deep):
                         viol.append(dict(rep, site="atlas:extra-output", detail="unexpected output files %r" % extra))
                     if r["tmp_left"]:
                         viol.append(dict(rep, site="atlas:tmp-left", detail="temporary files left: %r" % sorted(r["tmp_left"])))
+        # hosts that answer at different speeds (the first the slowest): requests still one at a time in host order, and
+        # <out>.<i> still host i's log
+        hs = ["slow.example.net:27017", "mid.example.net:27017", "fast.example.net:27017"]
+        plains = [atlas_payload(rng, i, 2 + i) for i in range(3)]
+        sc = fakeatlas.Scenario(hs, [fakeatlas.gz(p) for p in plains], delays={0: 0.7, 1: 0.3})
+        r = run_atlas(sc, work)
+        n += 1
+        rep = {"cfg": "-", "cli_flags": r["args"][1:], "input": "3 hosts answering after 0.7 s / 0.3 s / at once"}
+        dist["hosts-with-delays"] += 1
+        base = os.path.basename(r["out"])
+        authed = [e for e in r["log"] if e["authed"]]
+        want_paths = ["/api/atlas/v2/groups/proj1/clusters/clu1"] + ["/api/atlas/v2/groups/proj1/clusters/%s/logs/mongodb.gz" % h.split(":")[0] for h in hs]
+        if r["rc"] != 0:
+            viol.append(dict(rep, site="atlas:failed", detail="fault-free Atlas job exited %d: %s" % (r["rc"], r["stderr"][-300:])))
+        else:
+            if [e["path"] for e in authed] != want_paths:
+                viol.append(dict(rep, site="atlas:requests", detail="authenticated requests arrived as %r, expected %r" % ([e["path"] for e in authed], want_paths)))
+            for i, plain in enumerate(plains):
+                rc2, exp = expected_redaction(plain, [], work)
+                got = r["outputs"].get("%s.%d" % (base, i))
+                n += 1
+                if got != exp:
+                    viol.append(dict(rep, site="atlas:output-differs", detail="%s.%d is not the redaction of host %d's log (%s vs %d bytes)" % (base, i, i, "missing" if got is None else len(got), len(exp))))
         # a second run into the same --outputFile: longer files of an earlier run are lying there
         hs = ["h0.example.net:27017", "h1.example.net:27017"]
         plains = [atlas_payload(rng, i, 2 + i) for i in range(2)]
